@@ -98,6 +98,9 @@ def run_impl(c):
 
         md = GeffMetadata(directed=True, node_props_metadata={}, edge_props_metadata={}, track_node_props={"lineage": "lin"})
         g = {"metadata": md, "node_ids": nodes, "edge_ids": edges, "node_props": {"lin": {"values": labels, "missing": None}}, "edge_props": {}}
+        from harness.c12 import via_store
+
+        out["data_store"] = via_store(g, ValidationConfig(lineage=True))
         for key, cfg in (("data", ValidationConfig(lineage=True)), ("data_off", ValidationConfig(lineage=False, tracklet=True))):
             try:
                 validate_data(g, cfg)
@@ -149,6 +152,9 @@ def oracle(c, o):
     if "data" in o:
         if (o["data"] == "ok") != o["valid"] or o["data"] not in ("ok", "ValueError"):
             return Failure(c, o, f"validate_data(lineage=True) gives {o['data']} but validator says valid={o['valid']}", {"why": "wiring"})
+        if o.get("data_store") is not None and o["data_store"] != o["data"]:
+            return Failure(c, o, f"read_to_memory(store, data_validation=ValidationConfig(lineage=True)) gives {o['data_store']} but "
+                           f"validate_data gives {o['data']}", {"why": "wiring-read"})
         if o["data_off"] != "ok":
             return Failure(c, o, f"lineage validation disabled but validate_data raised {o['data_off']}", {"why": "disabled-raises"})
         if "data_both" in o and ((o["data_both"] == "ok") != o["valid"] or o["data_both"] not in ("ok", "ValueError")):
